@@ -33,6 +33,15 @@ N_Z1 = 5097
 N_Z3 = 6000
 PER_DOC = 12
 N_CASES = (N_Z1 + N_Z3) * PER_DOC
+# third family (cases X:i): hand-written documents with pragma lines around fixes that add or remove lines
+EXPLICIT = [
+    "a\n\n\n\nmore\n\n<!-- pyml disable-next-line md001-->\n\n<!-- pyml disable-next-line md002-->\nx\n",
+    "a\n```text\ncode\n```\n<!--- pyml disable-next-line md001-->\nb\n<!-- pyml disable-next-line md002-->\nx\n",
+    "<!--- pyml disable-next-line md007-->\n* Item 1\n * Item 2\n",
+    "Some text\n```text\ncode\n```\n\n<!-- pyml disable-next-line md013-->\n<!-- pyml disable-next-line md036-->\n**A heading like line**\n",
+    "# h\n\n\n\n\ntext\n<!-- pyml disable-next-line md009-->\nmore   \n\n\n<!-- pyml disable-num-lines 2 md013-->\nend\n",
+    "text\n~~~\ncode\n~~~\nafter\n<!-- pyml disable-next-line md047-->\n<!--- pyml disable-next-line md009-->\nlast   ",
+]
 PER_DOC_M = 4
 N_M = (N_Z1 + N_Z3) * PER_DOC_M
 MALFORMED = [
@@ -59,7 +68,7 @@ def plan(tier, seed, complete=False):
         idx = R(mix("C11", seed)).sample(N_CASES, 2400)
         midx = R(mix("C11M", seed)).sample(N_M, 1200)
     return {
-        "items": [f"P:{i}" for i in idx] + [f"M:{i}" for i in midx],
+        "items": [f"P:{i}" for i in idx] + [f"M:{i}" for i in midx] + [f"X:{i}" for i in range(len(EXPLICIT))],
         "zones": {"(document, insertion point, pragma form) cases": {"universe": N_CASES, "run": len(idx)},
                   "(document, 1-3 pragma lines incl. multi-rule and adjacent ones; scan + fix) cases": {"universe": N_M, "run": len(midx)}},
         "exhaustive": False,
@@ -125,6 +134,18 @@ def run_items(items, job):
             fam = it.split(":")[0]
         if fam == "M":
             _run_multi(ctx, R, key, ci)
+            continue
+        if fam == "X":
+            doc2 = EXPLICIT[ci]
+            R.evals += 1
+            plines = [x for x in doc2.split("\n") if "pyml" in x]
+            doc = "\n".join(x for x in doc2.split("\n") if "pyml" not in x)
+            v = set()
+            detail = {"case": f"X:{ci}", "doc": doc, "doc_with_pragma": doc2}
+            _fix_clause(ctx, R, ("X", ci), doc, doc2, plines, v, detail, "explicit")
+            R.see("pragma_forms", "explicit")
+            if v:
+                R.viol.append([key, ";".join(sorted(v)), detail])
             continue
         doc = case_doc(ci)
         R.evals += 1
